@@ -37,7 +37,9 @@ def gen_ill_time(rng):
         ('aa:bb:cc', 'ill:nonnumeric'), ('10:00:00:xx', 'ill:nonnumeric-tt'), ('10:00:00:', 'ill:empty-tt'),
         ('10:00', 'ill:fieldcount'), ('10:00:00:00:00', 'ill:fieldcount'), ('25:00:00', 'ill:range'),
         ('10:61:00', 'ill:range'), ('10:00:00:75', 'ill:range-tt'), (' ', 'ill:empty'),
-        ('10:00:00.xy', 'ill:nonnumeric-cc'), ('noon', 'ill:nonnumeric')])
+        ('10:00:00.xy', 'ill:nonnumeric-cc'), ('noon', 'ill:nonnumeric'),
+        ('10:20:30:inf', 'ill:nonfinite-tt'), ('10:20:30:1e999', 'ill:nonfinite-tt'), ('10:20:30:nan', 'ill:nonfinite-tt'),
+        ('10:20:30:-inf', 'ill:nonfinite-tt'), ('10:20:30:-5', 'ill:range-tt'), ('10:20:30:1e3', 'ill:range-tt')])
 
 
 def gen_date(rng):
